@@ -2,7 +2,8 @@
 
 Spec:  spec/Outcome.tla — Blocked, MayModify (Modified(f) => not Blocked(f), not Skipped(f), not LimitHit(f)),
        MustReportUnfixable; Algo layer = the three gates (Linter.lint_paths persist gate on the UNFILTERED count,
-       _stdin_fix after _handle_unparsable's discard, api.simple.fix on the FILTERED count) and the
+       _stdin_fix after _handle_unparsable's discard, api.simple.fix — on the filtered count until 254ee69 (F3), on
+       the unfiltered count plus a tree guard since) and the
        lint_fix_parsed loop-limit rollback.  spec/OutcomeTrace.tla with Prop = "C18".
 S->C:  TLC enumerates {TMP fatal, TMP undefined variable, PRS raised, PRS unparsable section} x {live, noqa,
        ignore=, warnings=} x {fixable / unfixable / no rule violation, each live / noqa / warning} x
@@ -35,7 +36,7 @@ def nontrivial(rec: dict, run: dict) -> bool:
 
 
 def run(tier: str, seed: int) -> int:
-    return S.check(PROP, tier, seed, nontrivial, RULE, refinement=[("ApiGateRefinesBlocked", ("single",), "F3")])
+    return S.check(PROP, tier, seed, nontrivial, RULE, refinement=[("ApiGateRefinesBlocked", ("single",), "F3 (repaired in 254ee69: expected to hold)")])
 
 
 def replay(path: str, tier: str, seed: int) -> int:
